@@ -240,6 +240,31 @@ def appSendAnswer (s : St) (ai : Nat) (req : AMsg) (info : MsgInfo) (rc : Nat) :
     let (s, ok) := sendMessage s cid ans info.ansTyped
     if ok then s.emit (.appSent ai) else s.emit (.raised ai "TypeError")
 
+/-- The peers `route_request` may use: configured for the application in the
+    realm, else the realm's defaults. -/
+def peerListFor (s : St) (ai : Nat) (realm : String) : Option (List Nat) :=
+  match s.routes.find? (·.1 == realm) with
+  | none => none
+  | some (_, tbl) =>
+    match tbl.find? (fun (k, _) => k == RKey.app ai) with
+    | some (_, ps) => some ps
+    | none => (tbl.find? (fun (k, _) => k == RKey.dflt)).map (·.2)
+
+/-- the peer has a connection in a ready state -/
+def peerUsable (s : St) (pi : Nat) : Bool :=
+  match s.peers[pi]? with
+  | some p => (match p.connection with
+    | some k => (match s.conn? k with | some c => c.state.isReady | none => false)
+    | none => false)
+  | none => false
+
+/-- `select_least_used_peer`: min over `counters.requests`, first wins ties -/
+def leastUsed (s : St) (first : Nat) (usable : List Nat) : Nat :=
+  usable.foldl (fun b pi =>
+    match s.peers[b]?, s.peers[pi]? with
+    | some pb, some pp => if pp.requests < pb.requests then pi else b
+    | _, _ => b) first
+
 /-- `route_request`: eligible peers, selection, hop-by-hop id, bookkeeping. -/
 def routeRequest (s : St) (ai : Nat) (m : AMsg) (info : MsgInfo) : Except Exn (St × Nat × AMsg) :=
   let realmR : Except Exn String :=
@@ -248,31 +273,14 @@ def routeRequest (s : St) (ai : Nat) (m : AMsg) (info : MsgInfo) : Except Exn (S
   match realmR with
   | .error e => .error e
   | .ok realm =>
-    let peerList : Option (List Nat) :=
-      match s.routes.find? (·.1 == realm) with
-      | none => none
-      | some (_, tbl) =>
-        match tbl.find? (fun (k, _) => k == RKey.app ai) with
-        | some (_, ps) => some ps
-        | none => (tbl.find? (fun (k, _) => k == RKey.dflt)).map (·.2)
-    match peerList with
+    match peerListFor s ai realm with
     | none => .error .notRoutable
     | some [] => .error .notRoutable
     | some ps =>
-      let usable := ps.filter fun pi =>
-        match s.peers[pi]? with
-        | some p => (match p.connection with
-          | some k => (match s.conn? k with | some c => c.state.isReady | none => false)
-          | none => false)
-        | none => false
-      match usable with
+      match ps.filter (peerUsable s) with
       | [] => .error .notRoutable
-      | first :: _ =>
-        -- `select_least_used_peer`: min over `counters.requests`, first wins ties
-        let best := usable.foldl (fun b pi =>
-          match s.peers[b]?, s.peers[pi]? with
-          | some pb, some pp => if pp.requests < pb.requests then pi else b
-          | _, _ => b) first
+      | first :: rest =>
+        let best := leastUsed s first (first :: rest)
         match (s.peers[best]?).bind (·.connection) with
         | none => .error .other
         | some cid =>
@@ -301,13 +309,17 @@ def appSendRequestBegin (s : St) (ai : Nat) (m : AMsg) (info : MsgInfo) : St × 
   match routeRequest s ai m info with
   | .error e => (s, .error e)
   | .ok (s, cid, m) =>
-    let s := s.modApp ai fun a => { a with answerWaiting := a.answerWaiting ++ [m.hbh] }
+    -- `self._answer_waiting[hbh] = waiting` (a dict: a second request with the same id takes the slot over)
+    let s := s.modApp ai fun a => { a with answerWaiting := if a.answerWaiting.contains m.hbh then a.answerWaiting else a.answerWaiting ++ [m.hbh] }
     let (s, _) := sendMessage s cid m true
     (s, .ok m)
 
 /-- …and after it wakes up (answer or timeout): `finally: del _answer_waiting[hbh]`. -/
-def appSendRequestEnd (s : St) (ai : Nat) (hbh : Nat) : St :=
-  s.modApp ai fun a => { a with answerWaiting := a.answerWaiting.filter (· != hbh) }
+def appSendRequestEnd (s : St) (ai : Nat) (hbh : Nat) : St × Bool :=
+  let present := match s.apps[ai]? with
+    | some a => a.answerWaiting.contains hbh
+    | none => false
+  (s.modApp ai fun a => { a with answerWaiting := a.answerWaiting.filter (· != hbh) }, present)
 
 /-! ### stop -/
 
